@@ -27,7 +27,7 @@
 From Coq Require Import List Bool NArith ZArith.
 From PV Require Import Base.Str Base.Value Net.Arith Net.IPv4 Net.IPv6 Policy.Policy.
 From PV Require Import Typed.Schema Typed.Dispatch Typed.Leaves Typed.Roundtrip Typed.RoundtripFacts Typed.RoundtripTable
-                       Typed.RoundtripRun Typed.RoundtripExamples Typed.SchemaTable Typed.SchemaChecks.
+                       Typed.UnionStable Typed.RoundtripRun Typed.RoundtripExamples Typed.SchemaTable Typed.SchemaChecks.
 From PVGen Require Import Schema.
 Import ListNotations.
 
@@ -95,6 +95,175 @@ Theorem C15_finite_schema_facts :
   List.length (unions_of_table CLASSES) = 248%nat /\ List.length TABLE_UNIONS = 15%nat.
 Proof. exact (conj Schema_table_wf (conj Schema_modelled_wf Schema_unions_count)). Qed.
 Print Assumptions C15_finite_schema_facts.
+
+(* ---------------------------------------------------------------------------------------------------------------- *)
+(* UNION STABILITY ON THE LIVE TABLE, PROVED (Typed/UnionStable.v).  Vocabulary:
+     IPNET       = ResolvableIPNetwork         left-to-right [Resolvable[IPv4], Resolvable[IPv6]]
+     IP_OR_LIST  = ResolvableIPOrList          left-to-right [IPNET, List[IPNET]]
+     STR_OR_LIST = InstanceOrListOf[Resolvable[str]]
+     U_IP_OR_STR  = (left-to-right, [IP_OR_LIST; STR_OR_LIST])   ResolvableIPOrStrOrList
+     U_INT_STR_FN = (left-to-right, [int; str; FunctionDict])    Resolvable[Union[int, str]]
+     holds_bytes v   v is bytes, or a list with a bytes member
+     union_ok u      the syntactic classifier: the outputs of every member of u have a SHAPE (str / bool / bytes / list /
+                     dump of a class with >= 2 fields / IPv4 network / IPv6 network, or the input handed back) that every
+                     member which must refuse it does refuse -- or u is one of U_INT_STR_FN, U_IP_OR_STR
+   REMAINING PREMISES, in plain words.  About pydantic-core's validators in lax python mode (each TRUE of pydantic 2.7 and
+   CHECKED on every generated model by harness/props/c15.py:leaf_violations):
+     (1) a scalar validator accepts its own output unchanged          (2) str keeps a str          (3) str yields a str
+     (4) str accepts nothing but str and bytes-like input             (5) str, int, datetime refuse a list
+     (6) str refuses a dict
+   and two RESIDUAL, per-union premises that speak only about bytes-like input where a text is expected (never the case for
+   JSON / YAML data; with facts true of pydantic both unions are UNSTABLE there: see the two theorems further down):
+     (7) union_int_str_fn_on_bytes: if str decodes some bytes to s and int refuses those bytes, int refuses s
+         [pydantic: false for bytearray(b"7")]
+     (8) union_ip_or_str_on_bytes: if IP_OR_LIST refuses v (holding bytes) and STR_OR_LIST accepts it with result x, IP_OR_LIST
+         refuses dump x   [pydantic: false for b"10.0.0.0/8"]
+   (7) and (8) FOLLOW from "the oracle never accepts bytes for str" (C15_bytes_residuals_are_a_domain_restriction): the oracle
+   may decline such input (EUndefined), as the runner's instance does. *)
+Theorem C15_union_stability_live_schema :
+  forall (core : leaf -> value -> res value),
+    (forall s, core LStr (VStr s) = Ok (VStr s)) ->
+    (forall v w, core LStr v = Ok w -> exists s, w = VStr s) ->
+    (forall v w, core LStr v = Ok w -> (exists s, v = VStr s) \/ (exists b, v = VBytes b)) ->
+    (forall l, core LStr (VList l) = Err EValidation) ->
+    (forall l, core LInt (VList l) = Err EValidation) ->
+    (forall l, core LDatetime (VList l) = Err EValidation) ->
+    (forall d, core LStr (VDict d) = Err EValidation) ->
+    (forall b s e, core LStr (VBytes b) = Ok (VStr s) -> core LInt (VBytes b) = Err e -> is_hard e = false ->
+                   exists e', core LInt (VStr s) = Err e' /\ is_hard e' = false) ->                       (* U_INT_STR_FN, bytes *)
+    (forall n v x, holds_bytes v ->
+                   soft_err (validate CLASSES RESOURCE_MODELS true (leaf_validate core) n IP_OR_LIST v) ->
+                   validate CLASSES RESOURCE_MODELS true (leaf_validate core) n STR_OR_LIST v = Ok x ->
+                   soft_err (validate CLASSES RESOURCE_MODELS true (leaf_validate core) n IP_OR_LIST (dump x))) ->   (* U_IP_OR_STR, bytes *)
+    forall u, In u (unions_of_table CLASSES) ->
+    forall n, stable_for (validate CLASSES RESOURCE_MODELS true (leaf_validate core) n) u.
+Proof. exact union_stability_live. Qed.
+Print Assumptions C15_union_stability_live_schema.
+
+(* the classifier is sound (any union it accepts is stable at every depth), and it accepts the 15 distinct unions of the live
+   table -- 13 by the shape argument alone, U_INT_STR_FN and U_IP_OR_STR by their own lemmas; every union written in the live
+   classes is one of the 15.  The last three facts are re-proved against the regenerated table on every run. *)
+Theorem C15_union_classifier_sound :
+  forall (core : leaf -> value -> res value),
+    (forall s, core LStr (VStr s) = Ok (VStr s)) ->
+    (forall v w, core LStr v = Ok w -> exists s, w = VStr s) ->
+    (forall v w, core LStr v = Ok w -> (exists s, v = VStr s) \/ (exists b, v = VBytes b)) ->
+    (forall l, core LStr (VList l) = Err EValidation) ->
+    (forall l, core LInt (VList l) = Err EValidation) ->
+    (forall l, core LDatetime (VList l) = Err EValidation) ->
+    (forall d, core LStr (VDict d) = Err EValidation) ->
+    (forall b s e, core LStr (VBytes b) = Ok (VStr s) -> core LInt (VBytes b) = Err e -> is_hard e = false ->
+                   exists e', core LInt (VStr s) = Err e' /\ is_hard e' = false) ->
+    (forall n v x, holds_bytes v ->
+                   soft_err (validate CLASSES RESOURCE_MODELS true (leaf_validate core) n IP_OR_LIST v) ->
+                   validate CLASSES RESOURCE_MODELS true (leaf_validate core) n STR_OR_LIST v = Ok x ->
+                   soft_err (validate CLASSES RESOURCE_MODELS true (leaf_validate core) n IP_OR_LIST (dump x))) ->
+    forall u, union_ok u = true ->
+    forall n, stable_for (validate CLASSES RESOURCE_MODELS true (leaf_validate core) n) u.
+Proof. exact union_ok_sound. Qed.
+Print Assumptions C15_union_classifier_sound.
+Theorem C15_unions_of_live_table_covered :
+  forallb union_ok TABLE_UNIONS = true /\
+  List.length (filter (generic_ok CLASSES) TABLE_UNIONS) = 13%nat /\
+  filter (fun u => negb (generic_ok CLASSES u)) TABLE_UNIONS = [U_INT_STR_FN; U_IP_OR_STR] /\
+  (forall u, In u (unions_of_table CLASSES) -> In u TABLE_UNIONS).
+Proof. exact (conj TABLE_UNIONS_ok (conj (proj1 TABLE_UNIONS_classified) (conj (proj2 TABLE_UNIONS_classified) table_unions_complete))). Qed.
+Print Assumptions C15_unions_of_live_table_covered.
+
+(* THE ROUND TRIP ON THE LIVE TABLE WITHOUT THE UNION HYPOTHESIS: premises (1)-(8) above and nothing else *)
+Theorem C15_roundtrip_live_schema_no_union_hypothesis :
+  forall (core : leaf -> value -> res value),
+    (forall k v w, is_core k = true -> core k v = Ok w -> core k w = Ok w) ->
+    (forall s, core LStr (VStr s) = Ok (VStr s)) ->
+    (forall v w, core LStr v = Ok w -> exists s, w = VStr s) ->
+    (forall v w, core LStr v = Ok w -> (exists s, v = VStr s) \/ (exists b, v = VBytes b)) ->
+    (forall l, core LStr (VList l) = Err EValidation) ->
+    (forall l, core LInt (VList l) = Err EValidation) ->
+    (forall l, core LDatetime (VList l) = Err EValidation) ->
+    (forall d, core LStr (VDict d) = Err EValidation) ->
+    (forall b s e, core LStr (VBytes b) = Ok (VStr s) -> core LInt (VBytes b) = Err e -> is_hard e = false ->
+                   exists e', core LInt (VStr s) = Err e' /\ is_hard e' = false) ->
+    (forall n v x, holds_bytes v ->
+                   soft_err (validate CLASSES RESOURCE_MODELS true (leaf_validate core) n IP_OR_LIST v) ->
+                   validate CLASSES RESOURCE_MODELS true (leaf_validate core) n STR_OR_LIST v = Ok x ->
+                   soft_err (validate CLASSES RESOURCE_MODELS true (leaf_validate core) n IP_OR_LIST (dump x))) ->
+    forall n t v x,
+      (forall u, In u (unions_of t) -> union_ok u = true) ->         (* decidable; no condition when t is a class of the table *)
+      validate CLASSES RESOURCE_MODELS true (leaf_validate core) n t v = Ok x ->
+      validate CLASSES RESOURCE_MODELS true (leaf_validate core) n t (dump x) = Ok x.
+Proof. exact table_roundtrip'. Qed.
+Print Assumptions C15_roundtrip_live_schema_no_union_hypothesis.
+
+(* a whole template:  CFModel(m.model_dump()) = m *)
+Theorem C15_roundtrip_template_no_union_hypothesis :
+  forall (core : leaf -> value -> res value),
+    (forall k v w, is_core k = true -> core k v = Ok w -> core k w = Ok w) ->
+    (forall s, core LStr (VStr s) = Ok (VStr s)) ->
+    (forall v w, core LStr v = Ok w -> exists s, w = VStr s) ->
+    (forall v w, core LStr v = Ok w -> (exists s, v = VStr s) \/ (exists b, v = VBytes b)) ->
+    (forall l, core LStr (VList l) = Err EValidation) ->
+    (forall l, core LInt (VList l) = Err EValidation) ->
+    (forall l, core LDatetime (VList l) = Err EValidation) ->
+    (forall d, core LStr (VDict d) = Err EValidation) ->
+    (forall b s e, core LStr (VBytes b) = Ok (VStr s) -> core LInt (VBytes b) = Err e -> is_hard e = false ->
+                   exists e', core LInt (VStr s) = Err e' /\ is_hard e' = false) ->
+    (forall n v x, holds_bytes v ->
+                   soft_err (validate CLASSES RESOURCE_MODELS true (leaf_validate core) n IP_OR_LIST v) ->
+                   validate CLASSES RESOURCE_MODELS true (leaf_validate core) n STR_OR_LIST v = Ok x ->
+                   soft_err (validate CLASSES RESOURCE_MODELS true (leaf_validate core) n IP_OR_LIST (dump x))) ->
+    forall n v x,
+      validate CLASSES RESOURCE_MODELS true (leaf_validate core) n CFMODEL v = Ok x ->
+      validate CLASSES RESOURCE_MODELS true (leaf_validate core) n CFMODEL (dump x) = Ok x.
+Proof. exact table_roundtrip_template'. Qed.
+Print Assumptions C15_roundtrip_template_no_union_hypothesis.
+
+(* the same with the domain restriction spelled out instead of (4), (7), (8): the oracle accepts only a str for str (bytes-like
+   input is declined or refused).  No premise mentions a union. *)
+Theorem C15_roundtrip_template_text_only :
+  forall (core : leaf -> value -> res value),
+    (forall k v w, is_core k = true -> core k v = Ok w -> core k w = Ok w) ->
+    (forall s, core LStr (VStr s) = Ok (VStr s)) ->
+    (forall v w, core LStr v = Ok w -> exists s, w = VStr s) ->
+    (forall v w, core LStr v = Ok w -> exists s, v = VStr s) ->
+    (forall l, core LStr (VList l) = Err EValidation) ->
+    (forall l, core LInt (VList l) = Err EValidation) ->
+    (forall l, core LDatetime (VList l) = Err EValidation) ->
+    (forall d, core LStr (VDict d) = Err EValidation) ->
+    forall n v x,
+      validate CLASSES RESOURCE_MODELS true (leaf_validate core) n CFMODEL v = Ok x ->
+      validate CLASSES RESOURCE_MODELS true (leaf_validate core) n CFMODEL (dump x) = Ok x.
+Proof. exact table_roundtrip_template_text. Qed.
+Print Assumptions C15_roundtrip_template_text_only.
+Theorem C15_bytes_residuals_are_a_domain_restriction :
+  forall (core : leaf -> value -> res value),
+    (forall l, core LStr (VList l) = Err EValidation) ->
+    (forall b w, core LStr (VBytes b) <> Ok w) ->
+    (forall b s e, core LStr (VBytes b) = Ok (VStr s) -> core LInt (VBytes b) = Err e -> is_hard e = false ->
+                   exists e', core LInt (VStr s) = Err e' /\ is_hard e' = false) /\
+    (forall n v x, holds_bytes v ->
+                   soft_err (validate CLASSES RESOURCE_MODELS true (leaf_validate core) n IP_OR_LIST v) ->
+                   validate CLASSES RESOURCE_MODELS true (leaf_validate core) n STR_OR_LIST v = Ok x ->
+                   soft_err (validate CLASSES RESOURCE_MODELS true (leaf_validate core) n IP_OR_LIST (dump x))).
+Proof. exact residuals_of_text_only. Qed.
+Print Assumptions C15_bytes_residuals_are_a_domain_restriction.
+
+(* ... and the restriction is needed: with facts that are TRUE of pydantic 2.7 the two unions are NOT stable.
+   B_7 = b"7" / "7" (the input is a bytearray: int refuses it, str decodes it, int takes the text);
+   B_NET = b"10.0.0.0/8" / "10.0.0.0/8" (no network type takes the ten bytes, str decodes them, the text is an IPv4 network).
+   In pycfmodel: SecurityGroupIngressProp(IpProtocol=bytearray(b"6")) and StatementCondition(IpAddress={"aws:SourceIp":
+   b"10.0.0.0/8"}) differ from their own re-validated dumps.  Bytes never come out of a JSON / YAML template. *)
+Theorem C15_int_str_fn_unstable_on_bytes :
+  forall (core : leaf -> value -> res value) n,
+    core LStr (VBytes B_7) = Ok (VStr B_7) -> core LInt (VBytes B_7) = Err EValidation -> core LInt (VStr B_7) = Ok (VInt 7) ->
+    ~ stable_for (validate CLASSES RESOURCE_MODELS true (leaf_validate core) n) U_INT_STR_FN.
+Proof. exact int_str_fn_unstable_on_bytes. Qed.
+Print Assumptions C15_int_str_fn_unstable_on_bytes.
+Theorem C15_ip_or_str_unstable_on_bytes :
+  forall (core : leaf -> value -> res value) n,
+    core LStr (VBytes B_NET) = Ok (VStr B_NET) ->
+    ~ stable_for (validate CLASSES RESOURCE_MODELS true (leaf_validate core) n) U_IP_OR_STR.
+Proof. exact ip_or_str_unstable_on_bytes. Qed.
+Print Assumptions C15_ip_or_str_unstable_on_bytes.
 
 (* ---------------------------------------------------------------------------------------------------------------- *)
 (* THE LEAF HYPOTHESES, DISCHARGED against the models of pycfmodel's own validators *)
@@ -176,6 +345,14 @@ Example C15_ex_core_hypotheses_satisfiable :
   (forall s, core_dumped LStr (VStr s) = Ok (VStr s)) /\
   (forall v w, core_dumped LStr v = Ok w -> exists s, w = VStr s).
 Proof. exact (conj core_dumped_own (conj core_dumped_str core_dumped_str_out)). Qed.
+(* ... the shape premises too: the runner's instance meets every premise of C15_roundtrip_template_text_only *)
+Example C15_ex_shape_hypotheses_satisfiable :
+  (forall v w, core_dumped LStr v = Ok w -> exists s, v = VStr s) /\
+  (forall l, core_dumped LStr (VList l) = Err EValidation) /\
+  (forall l, core_dumped LInt (VList l) = Err EValidation) /\
+  (forall l, core_dumped LDatetime (VList l) = Err EValidation) /\
+  (forall d, core_dumped LStr (VDict d) = Err EValidation).
+Proof. exact core_dumped_shapes. Qed.
 Example C15_ex_template_roundtrip :
   exists x, run_template EX_RAW = Ok x /\ run_template (dump x) = Ok x.
 Proof. eexists. split; [vm_compute; reflexivity | vm_compute; reflexivity]. Qed.
